@@ -85,48 +85,48 @@ Ter(op, X, Y, Z)    == {T(op, <<x, y, z>>, 0) : x \in X, y \in Y, z \in Z}
 Qua(op, W, X, Y, Z) == {T(op, <<w, x, y, z>>, 0) : w \in W, x \in X, y \in Y, z \in Z}
 
 \* all terms with a root form of the given result type over the given child sets
-NextB(B, I, O, ops) ==
-  Un("not", B) \cup Bin("and", B, B) \cup Bin("or", B, B)
-  \cup UNION {Bin(op, I, I) : op \in ops \cap CmpOps}
-  \cup UNION {Bin(op, B, B) : op \in ops \cap BoolEqOps}
-  \cup Ter("condB", B, B, B)
-NextI(B, I, O, A, S, ops) ==
-  Un("neg", I) \cup UNION {Bin(op, I, I) : op \in ops \cap ArithOps}
-  \cup Bin("coal", O, I) \cup Ter("condI", B, I, I) \cup Un("force", O)
-  \cup Ter("call", S, I, I) \cup Bin("fcall", I, I) \cup Bin("idx", A, I) \cup Un("mem", S)
-  \cup Un("castfB", B) \cup Un("castfI", I)
-NextO(B, I, O, D, So) ==
-  Bin("coalO", O, O) \cup Ter("condO", B, O, O) \cup Ter("ocall", So, I, I) \cup Un("omem", So)
-  \cup Bin("didx", D, I) \cup Un("asO", I) \cup Un("castqB", B) \cup Un("castqI", I)
+\* (UNION {..} instead of \cup: TLC's \cup on big enumerated sets is quadratic)
+NextB(B, I, O, ops) == UNION {
+  Un("not", B), Bin("and", B, B), Bin("or", B, B),
+  UNION {Bin(op, I, I) : op \in ops \cap CmpOps},
+  UNION {Bin(op, B, B) : op \in ops \cap BoolEqOps},
+  Ter("condB", B, B, B) }
+NextI(B, I, O, A, S, ops) == UNION {
+  Un("neg", I), UNION {Bin(op, I, I) : op \in ops \cap ArithOps},
+  Bin("coal", O, I), Ter("condI", B, I, I), Un("force", O),
+  Ter("call", S, I, I), Bin("fcall", I, I), Bin("idx", A, I), Un("mem", S),
+  Un("castfB", B), Un("castfI", I) }
+NextO(B, I, O, D, So) == UNION {
+  Bin("coalO", O, O), Ter("condO", B, O, O), Ter("ocall", So, I, I), Un("omem", So),
+  Bin("didx", D, I), Un("asO", I), Un("castqB", B), Un("castqI", I) }
 NextA(I) == Bin("arrlit", I, I)
 \* statements: only at the root
-Stmts(I, O) ==
-  Bin("asgIdx", I, I) \cup Ter("asgIdx2", I, I, I) \cup Bin("asgDict", I, O) \cup Ter("asgMemIdx", I, I, I)
-  \cup Bin("swapIdx", I, I) \cup Bin("swapSame", I, I) \cup Ter("swapIdx2", I, I, I) \cup Ter("swapIdx2r", I, I, I)
+Stmts(I, O) == UNION {
+  Bin("asgIdx", I, I), Ter("asgIdx2", I, I, I), Bin("asgDict", I, O), Ter("asgMemIdx", I, I, I),
+  Bin("swapIdx", I, I), Bin("swapSame", I, I), Ter("swapIdx2", I, I, I), Ter("swapIdx2r", I, I, I) }
 
 \* depth <= 1 (children are leaves), operator symbols of the inner alphabet
-B1 == LB \cup NextB(LB, LI, LO, InnerOps)
-I1 == LI \cup NextI(LB, LI, LO, LA, LS, InnerOps)
-O1 == LO \cup NextO(LB, LI, LO, LD, LSo)
-A1 == LA \cup NextA(LI)
-D1 == LD \cup Qua("dictlit", LI, LI, LI, LI)
+B1 == UNION {LB, NextB(LB, LI, LO, InnerOps)}
+I1 == UNION {LI, NextI(LB, LI, LO, LA, LS, InnerOps)}
+O1 == UNION {LO, NextO(LB, LI, LO, LD, LSo)}
+A1 == UNION {LA, NextA(LI)}
+D1 == UNION {LD, Qua("dictlit", LI, LI, LI, LI)}
 
 I1q == SetToSeq(I1)
 Pick(s) == s[RandomElement(1..Len(s))]
 \* a dictionary literal has four children: sampled above depth 1
-D2 == D1 \cup {T("dictlit", <<Pick(I1q), Pick(I1q), Pick(I1q), Pick(I1q)>>, 0) : k \in 1..NDictSample}
+D2 == UNION {D1, {T("dictlit", <<Pick(I1q), Pick(I1q), Pick(I1q), Pick(I1q)>>, 0) : k \in 1..NDictSample}}
 
 \* depth <= 2, root forms with the root alphabet: enumerated exhaustively
-B2r == B1 \cup NextB(B1, I1, O1, RootOps)
-I2r == I1 \cup NextI(B1, I1, O1, A1, LS, RootOps)
-O2r == O1 \cup NextO(B1, I1, O1, D1, LSo)
-A2r == A1 \cup NextA(I1)
+B2r == UNION {B1, NextB(B1, I1, O1, RootOps)}
+I2r == UNION {I1, NextI(B1, I1, O1, A1, LS, RootOps)}
+O2r == UNION {O1, NextO(B1, I1, O1, D1, LSo)}
+A2r == UNION {A1, NextA(I1)}
 S2  == Stmts(I1, O1)
-Exhaustive == B2r \cup I2r \cup O2r \cup A2r \cup D2 \cup S2
 
 \* depth <= 2 with the inner alphabet: the children of sampled depth-3 terms
-B2q == SetToSeq(IF InnerOps = RootOps THEN B2r ELSE B1 \cup NextB(B1, I1, O1, InnerOps))
-I2q == SetToSeq(IF InnerOps = RootOps THEN I2r ELSE I1 \cup NextI(B1, I1, O1, A1, LS, InnerOps))
+B2q == SetToSeq(IF InnerOps = RootOps THEN B2r ELSE UNION {B1, NextB(B1, I1, O1, InnerOps)})
+I2q == SetToSeq(IF InnerOps = RootOps THEN I2r ELSE UNION {I1, NextI(B1, I1, O1, A1, LS, InnerOps)})
 O2q == SetToSeq(O2r)
 A2q == SetToSeq(A2r)
 D2q == SetToSeq(D2)
@@ -156,7 +156,9 @@ SymOf(f) == CASE f = "~cmp" -> Pick(RootSeq(CmpOps)) [] f = "~arith" -> Pick(Roo
 SampleOf(f) == T(SymOf(f[1]), [j \in 1..Len(f[2]) |-> Pick(ChildSeq(f[2][j]))], 0)
 Sampled == IF NSample = 0 THEN {} ELSE UNION {{SampleOf(f) : k \in 1..NSample} : f \in Forms}
 
-CaseSeq == SetToSeq(Exhaustive \cup Sampled)
+\* the table: exhaustive part (pairwise disjoint by root type / statement) followed by the samples
+CaseSeq == SetToSeq(B2r) \o SetToSeq(I2r) \o SetToSeq(O2r) \o SetToSeq(A2r) \o SetToSeq(D2) \o SetToSeq(S2)
+           \o SetToSeq(Sampled)
 NCases  == Len(CaseSeq)
 
 TypeOf(op) ==
@@ -319,12 +321,13 @@ Eval(t) ==
 
 ---------------------------------------------------------------------------
 (* The table: one state per case *)
-Init == idx \in {j \in 1..NCases : j % NChunks = Chunk}
+\* (the table is evaluated once, at start-up, by the ASSUME at the end of the module: TLC does not cache
+\* CaseSeq across states, so one state per case would rebuild the whole term universe for every case)
+Init == idx = 0
 Next == UNCHANGED idx
 Spec == Init /\ [][Next]_idx
 
 Case == Number(CaseSeq[idx])
-Res  == Eval(Case)
 
 RECURSIVE Nodes(_)
 Nodes(t) == {t} \cup UNION {Nodes(t.a[j]) : j \in 1..Len(t.a)}
@@ -333,45 +336,66 @@ LeafIds(t) == {x.i : x \in {y \in Nodes(t) : IsLeaf(y.o)}}
 CallIds(t) == {x.i : x \in {y \in Nodes(t) : y.o \in {"call", "fcall", "ocall"}}}
 Lazy(t)  == \E x \in Nodes(t) : x.o \in {"and", "or", "coal", "coalO", "condB", "condI", "condO", "ocall"}
 InLog(l, x) == \E j \in 1..Len(l) : l[j] = x
+Pos(l, x)   == CHOOSE j \in 1..Len(l) : l[j] = x
 PrefixOf(s, l) == Len(s) <= Len(l) /\ SubSeq(l, 1, Len(s)) = s
 
-Emit == PrintT(ToJson([id |-> idx, term |-> Case, ty |-> TypeOf(Case.o), log |-> Res.log, val |-> Res.val,
-                       fails |-> ~Res.ok, err |-> Res.err, nl |-> Cardinality(LeafIds(Case))]))
+\* the table line of case c with result r
+LineN(n, c, r) == [id |-> n, term |-> c, ty |-> TypeOf(c.o), log |-> r.log, val |-> r.val,
+                  fails |-> ~r.ok, err |-> r.err, nl |-> Cardinality(LeafIds(c))]
+Line(c, r) == [id |-> idx, term |-> c, ty |-> TypeOf(c.o), log |-> r.log, val |-> r.val,
+               fails |-> ~r.ok, err |-> r.err, nl |-> Cardinality(LeafIds(c))]
+Emit == LET c == Case r == Eval(c) IN PrintT(ToJson(Line(c, r)))
 
-(* Sanity of the model itself *)
+(* Sanity of the model itself: c = numbered term, l = its log, r = its result *)
 \* only nodes of the term are logged, a leaf by its id and a body by 100 + id of its call
-LogOfTerm == \A j \in 1..Len(Res.log) :
-                Res.log[j] \in LeafIds(Case) \cup {100 + c : c \in CallIds(Case)}
+PLogOfTerm(c, l) == LET allowed == LeafIds(c) \cup {100 + x : x \in CallIds(c)}
+                    IN  \A j \in 1..Len(l) : l[j] \in allowed
 \* exactly once
-NoDup == \A j, k \in 1..Len(Res.log) : j # k => Res.log[j] # Res.log[k]
+PNoDup(l) == \A j, k \in 1..Len(l) : j # k => l[j] # l[k]
 \* left to right: pre-order numbering makes the leaf entries strictly increasing
-LeftToRight == LET l == SelectSeq(Res.log, LAMBDA x : x < 100)
-               IN  \A j \in 1..Len(l) - 1 : l[j] < l[j + 1]
+PLeftToRight(l) == LET m == SelectSeq(l, LAMBDA x : x < 100)
+                   IN  \A j \in 1..Len(m) - 1 : m[j] < m[j + 1]
 \* the first sub-expression is always evaluated first; its abort is the abort of the whole
-FirstFirst == Len(Case.a) > 0 =>
-                LET c == Eval(Case.a[1]) IN
-                /\ PrefixOf(c.log, Res.log)
-                /\ ~c.ok => (~Res.ok /\ Res.log = c.log /\ Res.err = c.err)
-\* a body runs after its receiver and arguments
-BodyLast == \A c \in CallIds(Case) :
-              InLog(Res.log, 100 + c) =>
-                LET n == CHOOSE x \in Nodes(Case) : x.i = c
-                    pos == CHOOSE j \in 1..Len(Res.log) : Res.log[j] = 100 + c
-                IN  \A x \in LeafIds(n) : InLog(Res.log, x) =>
-                      (CHOOSE j \in 1..Len(Res.log) : Res.log[j] = x) < pos
+PFirstFirst(c, r) == Len(c.a) > 0 =>
+                       LET f == Eval(c.a[1]) IN
+                       /\ PrefixOf(f.log, r.log)
+                       /\ (~f.ok) => (~r.ok /\ r.log = f.log /\ r.err = f.err)
+\* a body runs after its receiver and after whatever was evaluated of its arguments
+PBodyLast(c, l) == \A x \in CallIds(c) :
+                     InLog(l, 100 + x) =>
+                       LET n == CHOOSE y \in Nodes(c) : y.i = x
+                       IN  \A y \in LeafIds(n) : InLog(l, y) => Pos(l, y) < Pos(l, 100 + x)
 \* without lazy forms and without abort everything is evaluated
-StrictTotal == (Res.ok /\ ~Lazy(Case)) =>
-                 Len(Res.log) = Cardinality(LeafIds(Case)) + Cardinality(CallIds(Case))
+PStrictTotal(c, r) == (r.ok /\ ~Lazy(c)) =>
+                        Len(r.log) = Cardinality(LeafIds(c)) + Cardinality(CallIds(c))
 \* short-circuit laws at the root
-LazyLaws ==
-  LET op == Case.o IN
+PLazyLaws(c, r) ==
+  LET op == c.o IN
   /\ op \in {"and", "or", "coal", "coalO"} =>
-       LET l == Eval(Case.a[1])
+       LET l == Eval(c.a[1])
            skip == CASE op = "and" -> l.ok /\ ~l.val [] op = "or" -> l.ok /\ l.val [] OTHER -> l.ok /\ l.val # <<>>
-       IN  /\ skip => Res.log = l.log /\ Res.ok
-           /\ (l.ok /\ ~skip) => Res.log = l.log \o Eval(Case.a[2]).log
+       IN  /\ skip => (r.log = l.log /\ r.ok)
+           /\ (l.ok /\ ~skip) => r.log = l.log \o Eval(c.a[2]).log
   /\ op \in {"condB", "condI", "condO"} =>
-       ~ \E x \in Ids(Case.a[2]), y \in Ids(Case.a[3]) : InLog(Res.log, x) /\ InLog(Res.log, y)
+       ~ \E x \in Ids(c.a[2]), y \in Ids(c.a[3]) : InLog(r.log, x) /\ InLog(r.log, y)
   /\ op = "ocall" =>
-       LET r == Eval(Case.a[1]) IN (r.ok /\ r.val = <<>>) => (Res.log = r.log /\ Res.val = <<>>)
+       LET f == Eval(c.a[1]) IN (f.ok /\ f.val = <<>>) => (r.log = f.log /\ r.val = <<>>)
+
+\* all sanity properties and the table line in one pass over the case (one evaluation of the case per state)
+Sane(c, r) == /\ PLogOfTerm(c, r.log) /\ PNoDup(r.log) /\ PLeftToRight(r.log) /\ PFirstFirst(c, r)
+              /\ PBodyLast(c, r.log) /\ PStrictTotal(c, r) /\ PLazyLaws(c, r)
+SaneAndEmit == LET c == Case r == Eval(c) IN Sane(c, r) /\ PrintT(ToJson(Line(c, r)))
+\* the whole table of this chunk: every case is numbered, evaluated, checked against the sanity laws and printed
+TableOK == LET cs == CaseSeq IN
+           \A n \in {m \in 1..Len(cs) : m % NChunks = Chunk} :
+              LET c == Number(cs[n]) r == Eval(c) IN Sane(c, r) /\ PrintT(ToJson(LineN(n, c, r)))
+ASSUME TableOK
+
+LogOfTerm   == LET c == Case r == Eval(c) IN PLogOfTerm(c, r.log)
+NoDup       == LET r == Eval(Case) IN PNoDup(r.log)
+LeftToRight == LET r == Eval(Case) IN PLeftToRight(r.log)
+FirstFirst  == LET c == Case r == Eval(c) IN PFirstFirst(c, r)
+BodyLast    == LET c == Case r == Eval(c) IN PBodyLast(c, r.log)
+StrictTotal == LET c == Case r == Eval(c) IN PStrictTotal(c, r)
+LazyLaws    == LET c == Case r == Eval(c) IN PLazyLaws(c, r)
 =============================================================================
